@@ -380,4 +380,28 @@ func init() {
 			"contexts are cancelled by the environment only between events",
 		},
 	}
+	props["C17"] = &Property{
+		Title: "protected endpoints reject callers lacking the right token",
+		Instances: func(tier string) []*Instance {
+			c := "cmd"
+			return []*Instance{
+				{Pkg: c, Func: "VH_C17_token", Args: []int64{1}, Unwind: 32},
+				{Pkg: c, Func: "VH_C17_token", Args: []int64{3}, Unwind: 32},
+				{Pkg: c, Func: "VH_C17_notoken", Unwind: 32},
+				{Pkg: c, Func: "VH_C17_wiring", Args: []int64{0}, Unwind: 32, EngineOnly: true},
+				{Pkg: c, Func: "VH_C17_wiring", Args: []int64{1}, Unwind: 32, EngineOnly: true},
+				{Pkg: c, Func: "VH_C17_vacuity", Expect: "violated"},
+			}
+		},
+		Covers: map[string][]string{"VH_C17_token": {"end", "accepted", "rejected"}, "VH_C17_notoken": {"end"}, "VH_C17_wiring": {"end", "accepted", "rejected"}},
+		Bounds: map[string]string{
+			"quick":    "configured token of 1 and of 3 arbitrary bytes; presented token absent or arbitrary of 0..n+1 bytes (shorter = prefix-like, equal length, longer = suffix-like; case variants are just other byte values); each of the four protected server types and the KV / Cluster servers; unary and streaming interceptor; the API-server registration closures of cmd.leader and cmd.follower executed with 2-byte arbitrary tokens configured",
+			"thorough": "same",
+		},
+		Outside: "the TLS clause (client certificate chains, common name / hostname checks): crypto/tls and crypto/x509 cannot be encoded, and the option logic in security.TLSInfo is not covered by this check; header parsing inside auth.AuthFromMD (third party; modelled as 'a token string or Unauthenticated'); gRPC's dispatch of info.Server; tokens longer than 4 bytes (string equality is length-generic)",
+		Assumptions: []string{
+			"M5: auth.AuthFromMD yields the presented bearer token or an Unauthenticated error",
+			"wiring harness: viper.GetBool/GetString return the configured values; captured variables of the closures (engine, conn, queue) are opaque; engine-only (no native twin: the closures are not addressable from outside leader()/follower())",
+		},
+	}
 }
